@@ -18,6 +18,14 @@ def run(ctx):
     for i in range(ctx.scale(400, 8000)):
         sc = B.gen_scenario(ctx.rng, with_fault=True)
         C05.one(ctx, sc, ctx.rng.randrange(1 << 30), component="batcher.fault", prop="C03")
+    # a client call that ends with a BaseException (cancelled, interrupted): outside the batcher model, write-ahead only
+    for i in range(ctx.scale(150, 3000)):
+        sc = B.gen_scenario(ctx.rng, with_fault=True)
+        sc["fault"]["kind"] = "base_raise"
+        res = B.run_scenario(sc, seed=ctx.rng.randrange(1 << 30))
+        B.write_ahead_only(ctx, sc, res, "batcher.base_exception")
+        ctx.case((repr(sc), tuple(res["decisions"])) if any(c[2] == "raise" for c in res["calls"]) else None)
+        ctx.count("batcher.base_exception")
 
 
     # executor level: a synchronous checkpoint issued inside a map/parallel branch returns only when a successful call
@@ -36,6 +44,11 @@ def replay(ctx, rec):
     if "blocks" in (rec["case"].get("scenario") or {}):
         from harness import comp_executor
         comp_executor.replay(ctx, rec, "C03")
+        return
+    if "scenario" in rec["case"] and "producers" in rec["case"]["scenario"] and (rec["case"]["scenario"].get("fault") or {}).get("kind") == "base_raise":
+        from harness import batcher_sim as B
+        sc = rec["case"]["scenario"]
+        B.write_ahead_only(ctx, sc, B.run_scenario(sc, schedule=rec["case"].get("decisions"), seed=0), "batcher.base_exception.replay")
         return
     if "scenario" in rec["case"] and "producers" in rec["case"]["scenario"]:
         from harness.props import C05
